@@ -413,6 +413,156 @@ def _sequence_case(kind, mx, bw, ops, deltas):
         pbmod.time = saved
 
 
+# ---- custom formats and messages of varying length (single-line with a message, two-line), incl. on a section that is not the last one
+OPS_C = ["adv1", "adv3", "set_mid", "display", "clear", "msg_long", "msg_short", "start"]
+DELTAS_C = [0.0, 2.0]
+FORMATS_C = {"msg1": "%message% %current%/%max% [%bar%] %percent:3s%%", "two": "%message%\n %current%/%max% [%bar%] %percent:3s%%",
+             "three": "%message%\n %current%/%max% [%bar%]\n %percent:3s%% done"}
+MESSAGES_C = {"init": "init", "msg_long": "L" * 30, "msg_short": "s"}
+# terminal width: one more than the longest line any frame of the format can have (no line ever wraps, but a frame as a whole is longer than the terminal is wide)
+W_C = {"msg1": 56, "two": 31, "three": 31}
+
+
+def _expected_lines(fmtkind, msg, step, mx, bw):
+    """The frame the statement promises, written out independently of ProgressBar: message, current step, maximum, a bar segment of exactly bw characters, the exact percentage."""
+    done = step * bw // mx
+    seg = "=" * done + (">" + "-" * (bw - done - 1) if done < bw else "")
+    cur = str(step).rjust(len(str(mx)))
+    pct = str(step * 100 // mx).rjust(3) + "%"
+    if fmtkind == "msg1":
+        return ["%s %s/%d [%s] %s" % (msg, cur, mx, seg, pct)]
+    if fmtkind == "two":
+        return [msg, " %s/%d [%s] %s" % (cur, mx, seg, pct)]
+    return [msg, " %s/%d [%s]" % (cur, mx, seg), " %s done" % pct]
+
+
+def _custom_case(kind, fmtkind, mx, bw, ops, deltas):
+    import clikit.utils.terminal as termmod
+    clock = {"t": 1000.0}
+    saved, saved_w = pbmod.time, termmod.Terminal.width
+    pbmod.time = type("T", (), {"time": staticmethod(lambda: clock["t"])})
+    termmod.Terminal.width = property(lambda self: W_C[fmtkind])
+    try:
+        st = BufferedOutputStream()
+        out = Output(st, PlainFormatter() if kind == "plain" else AnsiFormatter(forced=True))
+        above = below = None
+        if kind == "section2":           # the bar lives in the middle one of three sections; the others must stay as they are
+            above = out.section()
+            target = out.section()
+            below = out.section()
+            above.write_line("ABOVE")
+            below.write_line("BELOW")
+        elif kind == "section":
+            target = out.section()
+        else:
+            target = out
+        bar = ProgressBar(target, mx, MIN_INTERVAL)
+        bar.set_bar_width(bw)
+        bar.set_format(FORMATS_C[fmtkind])
+        msg = MESSAGES_C["init"]
+        bar.set_message(msg)
+        draws = []                      # (expected lines at the time of the draw, clock, op)
+        blank = []
+        orig = bar._overwrite
+
+        def spy(message):
+            if message.strip("\n") == "":
+                blank.append(clock["t"])
+            else:
+                draws.append((_expected_lines(fmtkind, msg, bar.get_progress(), bar.get_max_steps(), bw), clock["t"], cur["op"], message))
+            return orig(message)
+
+        bar._overwrite = spy
+        cur = {"op": None}
+        scr, fed = Screen(), 0
+        showing = False
+        for op, d in zip(["start"] + list(ops) + ["finish"], [0.0] + list(deltas) + [0.05]):
+            clock["t"] += d
+            cur["op"] = op
+            n_before, b_before = len(draws), len(blank)
+            m = bar.get_max_steps()
+            if op == "start":
+                bar.start()
+            elif op == "adv1":
+                bar.advance()
+            elif op == "adv3":
+                bar.advance(3)
+            elif op == "set_mid":
+                bar.set_progress(m // 2)
+            elif op == "display":
+                bar.display()
+            elif op == "clear":
+                bar.clear()
+            elif op in ("msg_long", "msg_short"):
+                msg = MESSAGES_C[op]
+                bar.set_message(msg)
+            else:
+                bar.finish()
+            s_, m_ = bar.get_progress(), bar.get_max_steps()
+            if s_ < 0 or s_ > m_:
+                return False
+            new = draws[n_before:]
+            if op in ("start", "display") and len(new) != 1:
+                return False
+            if op in ("adv1", "adv3", "set_mid", "finish") and s_ == m_ and len(new) != 1:
+                return False
+            if op in ("adv1", "adv3", "set_mid") and new and s_ != m_:
+                if draws[:n_before] and clock["t"] - draws[n_before - 1][1] < MIN_INTERVAL - 1e-9:
+                    return False
+            if op in ("msg_long", "msg_short") and (new or len(blank) != b_before):
+                return False             # changing the message alone draws nothing
+            for exp, t, o, message in new:
+                if [l.rstrip() for l in message.split("\n")] != [l.rstrip() for l in exp]:
+                    return False         # the frame is the truthful one: current message, step, maximum, bar width, percentage
+            if new:
+                showing = True
+            elif len(blank) != b_before:
+                showing = False
+            if kind != "plain" and (new or len(blank) != b_before):
+                text_now = st.fetch()
+                if not scr.feed(text_now[fed:]):
+                    return False
+                fed = len(text_now)
+                shown = [r.rstrip() for r in scr.rows]
+                while shown and shown[-1] == "":
+                    shown.pop()
+                want = [l.rstrip() for l in draws[-1][0]] if showing else []
+                if kind == "section2":
+                    want = ["ABOVE"] + want + ["BELOW"]
+                if not showing:          # after clear() the rows of the bar are blank; how many blank rows remain is not the statement's business
+                    shown = [r for r in shown if r != ""]
+                if shown != want:
+                    return False         # the terminal shows exactly the latest frame (every line of it), nothing stale, neighbours intact
+        if not draws or draws[-1][2] != "finish" and bar.get_progress() != bar.get_max_steps():
+            return False
+        last = draws[-1]
+        if last[0] != _expected_lines(fmtkind, msg, bar.get_max_steps(), bar.get_max_steps(), bw):
+            return False                 # the last frame shows the maximum at 100 % with the current message
+        text = st.fetch()
+        if kind == "plain":
+            if "\x1b" in text or "\r" in text:
+                return False
+            flat = [l.rstrip() for dr in draws for l in dr[0]]
+            return [l.rstrip() for l in text.split("\n")] == flat
+        return True
+    finally:
+        pbmod.time = saved
+        termmod.Terminal.width = saved_w
+
+
+def custom(o1: int, o2: int, o3: int, d1: int, d2: int, d3: int) -> bool:
+    """
+    pre: 0 <= o1 < 8 and 0 <= o2 < 8 and 0 <= o3 < 8 and 0 <= d1 < 2 and 0 <= d2 < 2 and 0 <= d3 < 2
+    pre: PART["n"] > 2 or (o3 == 0 and d3 == 0)
+    pre: PART.get("o1") is None or o1 == PART["o1"]
+    post: _
+    """
+    n = PART["n"]
+    ops = [OPS_C[conc_int(o, 0, 7)] for o in (o1, o2, o3)][:n]
+    deltas = [DELTAS_C[conc_int(d, 0, 1)] for d in (d1, d2, d3)][:n]
+    return untraced(_custom_case, PART["kind"], PART["fmt"], PART["max"], PART["bw"], ops, deltas)
+
+
 def sequence(o1: int, o2: int, o3: int, d1: int, d2: int, d3: int) -> bool:
     """
     pre: 0 <= o1 < 8 and 0 <= o2 < 8 and 0 <= o3 < 8 and 0 <= d1 < 3 and 0 <= d2 < 3 and 0 <= d3 < 3
@@ -460,5 +610,16 @@ def conditions(tier):
         for o1 in range(8):
             conds.append({"name": "sequence3[ansi,max=10,bw=10,%s]" % OPS[o1], "fn": sequence, "timeout": t, "part": {"kind": "ansi", "max": 10, "bw": 10, "n": 3, "o1": o1},
                           "bounds": "start, %s, 2 more operations from %r, finish; clock advances from %r" % (OPS[o1], OPS, DELTAS)})
+    ckinds = [("ansi", "msg1"), ("ansi", "two"), ("plain", "two"), ("section", "msg1"), ("section", "two"), ("section2", "two"), ("section2", "three")]
+    if not quick:
+        ckinds += [("ansi", "three"), ("plain", "msg1"), ("plain", "three"), ("section", "three"), ("section2", "msg1")]
+    for kind, fk in ckinds:
+        if quick and (kind, fk) != ("section2", "two"):
+            conds.append({"name": "custom2[%s,%s]" % (kind, fk), "fn": custom, "timeout": t, "part": {"kind": kind, "fmt": fk, "max": 10, "bw": 10, "n": 2, "o1": None},
+                          "bounds": "custom format %r, start, 2 operations from %r (messages of length 1 / 4 / 30), finish; clock advances from %r; %s" % (FORMATS_C[fk], OPS_C, DELTAS_C, kind)})
+        else:
+            for o1 in range(8):
+                conds.append({"name": "custom3[%s,%s,%s]" % (kind, fk, OPS_C[o1]), "fn": custom, "timeout": t, "part": {"kind": kind, "fmt": fk, "max": 10, "bw": 10, "n": 3, "o1": o1},
+                              "bounds": "custom format %r, start, %s, 2 more operations from %r, finish; %s" % (FORMATS_C[fk], OPS_C[o1], OPS_C, kind)})
     conds.append({"name": "sequence_twin", "fn": sequence_twin, "timeout": t, "expect": "refute", "part": {"kind": "ansi", "max": 10, "bw": 10, "n": 2}, "bounds": "reachability twin"})
     return conds
